@@ -39,6 +39,12 @@ func c06Scenarios() []*core.Scenario {
 			Setup: []core.Op{a(1, 0, 4), a(2, 0, 4)},
 			Threads: []core.ThreadSpec{{Name: "writer", Ops: []core.Op{a(3, 0, 4)}}, {Name: "reader1", Ops: []core.Op{{K: "GL", Idx: 3}}},
 				{Name: "reader2", Ops: []core.Op{{K: "LI"}, {K: "GL", Idx: 1}}}}},
+		{Name: "S7 sealing append then tail truncation and re-append while the rotation is pending || FirstIndex, GetLog(kept), LastIndex", Cfg: seg,
+			Setup:   []core.Op{a(1, 0, 4), a(2, 0, 4)},
+			Threads: []core.ThreadSpec{{Name: "writer", Ops: []core.Op{a(3, 0, 4), {K: "D", Min: 3, Max: 3}, a(3, 1, 12)}}, {Name: "reader", Ops: []core.Op{{K: "FI"}, {K: "GL", Idx: 1}, {K: "LI"}}}}},
+		{Name: "S8 sealing append then head truncation while the rotation is pending || GetLog(kept), FirstIndex", Cfg: seg,
+			Setup:   []core.Op{a(1, 0, 4), a(2, 0, 4)},
+			Threads: []core.ThreadSpec{{Name: "writer", Ops: []core.Op{a(3, 0, 4), {K: "D", Min: 1, Max: 1}}}, {Name: "reader", Ops: []core.Op{{K: "GL", Idx: 3}, {K: "FI"}}}}},
 		{Name: "S6 head truncation inside the tail || GetLog(deleted), FirstIndex", Cfg: core.Config{SegSize: 4096},
 			Setup:   []core.Op{a(1, 0, 4), a(2, 0, 4), a(3, 0, 4)},
 			Threads: []core.ThreadSpec{{Name: "writer", Ops: []core.Op{{K: "D", Min: 1, Max: 2}, a(4, 0, 4)}}, {Name: "reader", Ops: []core.Op{{K: "GL", Idx: 1}, {K: "FI"}, {K: "GL", Idx: 4}}}}},
